@@ -317,6 +317,13 @@ def r_C02cd(root):
     apps = [c for c in calls(loop) if callee_name(c) in ("append", "insert")]
     if not (sepif is not None and ast.unparse(sepif.test) == "n.rule_name != 'sep'" and len(loop.body) == 1 and apps and all(c.func.attr == "append" for c in apps)):
         out.append(Finding("C02", "C02.c", M, "process_node", ast.unparse(loop.body[0].test) if sepif else "list loop", "list assignment does not append every non-separator match in input order"))
+    # the loop visits every child of the assignment node: its iterable is the node itself (not a slice / filter of it)
+    inst += 1
+    fi_pn = sem.info(pn); it = fi_pn.expand(loop.iter, at=loop.iter)
+    p_node = pn.args.args[0].arg
+    ok_it = isinstance(it, ast.Name) and it.id == p_node
+    ob("C02", "C02.c", M, "process_node", "list loop iterates over every child of the assignment node (%s)" % ast.unparse(it)[:50], ok_it)
+    if not ok_it: out.append(Finding("C02", "C02.c", M, "process_node", "for %s in %s" % (ast.unparse(loop.target), " ".join(ast.unparse(loop.iter).split())[:70]), "the list assignment does not visit every child of the assignment node (it iterates %s): matched values are skipped when the children are not laid out as assumed (a separator that matched nothing leaves no node)" % ast.unparse(it)[:50], witness="items+=INT[/,?/] with input '1 2,3 4'"))
     return inst, out
 def r_C16a(root):
     t = load(root, M); out = []; inst = 0
